@@ -209,7 +209,7 @@ func runE2E(rp E2EReplay) (*e2eOut, error) {
 	var acks []string
 	var coqReqs []string
 	oversize := map[string]bool{}
-	bothLevels, truncAck := false, false
+	bothLevels, truncPkt := false, false
 
 	for i, rq := range rp.Reqs {
 		switch rq.Kind {
@@ -336,22 +336,32 @@ func runE2E(rp E2EReplay) (*e2eOut, error) {
 					if ack && firstBig >= 0 {
 						oversize[key] = true
 					}
+					if !ack && firstBig < 0 && declared <= len(evs) {
+						fail("ack-mismatch", fmt.Sprintf("request %d (raw): a complete packet with accepted tags and fields and no oversize record was rejected: %v", i, err))
+					}
 					if !ack {
-						// rejected: a prefix (up to the record that cannot be served back) may have been stored
+						// rejected: a prefix may have been stored (the write path is streaming): the events before the
+						// record that cannot be served back, or the events a truncated packet does carry
 						seg, n = i+1, firstBig
 						if n < 0 {
 							n = 0
+							if declared > len(evs) {
+								n = len(evs)
+							}
 						}
 					}
 					for k := 0; k < n; k++ {
 						expected[key] = append(expected[key], expEv{evs[k].Ts, evs[k].Msg, bins[k], seg})
 					}
 				}
-				if ack && kok {
-					if declared > len(evs) {
-						truncAck = true
-						fail("truncated-packet-acknowledged", fmt.Sprintf("request %d: the packet declares %d events, %d decode; the write was acknowledged", i, declared, len(evs)))
-					}
+				if ack && (!kok || ferr != nil) {
+					fail("ack-mismatch", fmt.Sprintf("request %d (raw): acknowledged although tags ok=%v, fields err=%v", i, kok, ferr))
+				}
+				if declared > len(evs) {
+					truncPkt = true
+				}
+				if ack && kok && declared > len(evs) {
+					fail("truncated-packet-acknowledged", fmt.Sprintf("request %d: the packet declares %d events, %d decode; the write was acknowledged", i, declared, len(evs)))
 				}
 			} else if ack {
 				fail("undecodable-packet-acknowledged", fmt.Sprintf("request %d", i))
@@ -499,7 +509,7 @@ func runE2E(rp E2EReplay) (*e2eOut, error) {
 	if bothLevels {
 		out.tags = append(out.tags, "e2e:fields-on-both-levels")
 	}
-	if truncAck {
+	if truncPkt {
 		out.tags = append(out.tags, "e2e:truncated-packet")
 	}
 	out.tags = append(out.tags, fmt.Sprintf("e2e:partitions=%d", len(keys)), fmt.Sprintf("e2e:maxchunk=%d", rp.MaxChunk))
@@ -555,11 +565,18 @@ func runConc(rp E2EReplay) (*e2eOut, error) {
 	errs := make([]error, len(rp.Batches))
 	total := 0
 	byMsg := map[string][2]int{}
+	// what the property expects of writer w: its events before the first oversize one are stored; it fails iff
+	// there is an oversize one
+	stored := make([]int, len(rp.Batches))
 	for w, b := range rp.Batches {
-		total += len(b)
+		stored[w] = len(b)
 		for i, e := range b {
 			byMsg[string(e.Msg)] = [2]int{w, i}
+			if stored[w] == len(b) && int64(recordSize(e.Msg, e.Flds)) > rp.MaxRec {
+				stored[w] = i
+			}
 		}
+		total += stored[w]
 		wg.Add(1)
 		go func(w int, b []LE) {
 			defer wg.Done()
@@ -573,12 +590,18 @@ func runConc(rp E2EReplay) (*e2eOut, error) {
 	}
 	close(start)
 	wg.Wait()
+	oversized := false
 	for w, e := range errs {
-		if e != nil {
+		big := stored[w] < len(rp.Batches[w])
+		oversized = oversized || big
+		if e != nil && !big {
 			if p, how := fdPressure(); p {
 				return nil, fmt.Errorf("the harness process is running out of file descriptors (%s): raise `ulimit -n`; no verdict", how)
 			}
 			out.viol = &Violation{Class: "concurrent-write-failed", Detail: fmt.Sprintf("writer %d: %v", w, e)}
+		}
+		if e == nil && big && out.viol == nil {
+			out.viol = &Violation{Class: "oversize-record-acknowledged-unreadable", Detail: fmt.Sprintf("writer %d: event %d exceeds MaxRecordSize=%d; the write was acknowledged", w, stored[w], rp.MaxRec)}
 		}
 	}
 	var confirmed uint64
@@ -627,9 +650,12 @@ func runConc(rp E2EReplay) (*e2eOut, error) {
 		}
 		obs = append(obs, GPair(GNat(w), GBytes(marshalLE(orig))))
 	}
-	for w, b := range rp.Batches {
-		if next[w] != len(b) && out.viol == nil {
-			out.viol = &Violation{Class: "concurrent-events-missing", Detail: fmt.Sprintf("writer %d: %d of %d events read back", w, next[w], len(b))}
+	for w := range rp.Batches {
+		if next[w] < stored[w] && out.viol == nil {
+			out.viol = &Violation{Class: "concurrent-events-missing", Detail: fmt.Sprintf("writer %d: %d of %d events read back", w, next[w], stored[w])}
+		}
+		if next[w] > stored[w] && out.viol == nil {
+			out.viol = &Violation{Class: "concurrent-events-extra", Detail: fmt.Sprintf("writer %d: %d events read back, %d were due (the next one is oversize)", w, next[w], stored[w])}
 		}
 	}
 	var bs []string
@@ -642,6 +668,9 @@ func runConc(rp E2EReplay) (*e2eOut, error) {
 		out.tags = append(out.tags, "conc:interleaved")
 	} else {
 		out.tags = append(out.tags, "conc:serial")
+	}
+	if oversized {
+		out.tags = append(out.tags, "conc:oversize-event")
 	}
 	return out, nil
 }
@@ -680,6 +709,7 @@ func runPos(rp E2EReplay) (*e2eOut, error) {
 	var acks, coqReqs []string
 	count := map[string]int{}
 	var keys []string
+	oversized := false
 	for i, rq := range rp.Reqs {
 		if rq.Kind != "dir" {
 			return nil, fmt.Errorf("pos case with a %s request", rq.Kind)
@@ -694,11 +724,25 @@ func runPos(rp E2EReplay) (*e2eOut, error) {
 		coqReqs = append(coqReqs, GApp("DirW", GStr(rq.Tags), gLEs(rq.Les)))
 		key, kok := normTags(rq.Tags)
 		ntab.add(rq.Tags, []byte(key), kok)
-		if ack != kok {
-			fail("ack-mismatch", fmt.Sprintf("request %d (direct): acknowledged=%v, tags ok=%v, err=%v", i, ack, kok, err))
+		// the events before the first oversize one are stored; the batch is acknowledged iff there is none
+		nst := len(rq.Les)
+		for k, e := range rq.Les {
+			if nst == len(rq.Les) && int64(recordSize(e.Msg, e.Flds)) > rp.MaxRec {
+				nst = k
+			}
 		}
-		w := wev{key: key, n: len(rq.Les), before: count[key]}
-		expectEvent := ack && kok && len(rq.Les) > 0
+		if nst < len(rq.Les) {
+			oversized = true
+		}
+		should := kok && nst == len(rq.Les)
+		switch {
+		case ack && kok && !should:
+			fail("oversize-record-acknowledged-unreadable", fmt.Sprintf("request %d (direct): event %d exceeds MaxRecordSize=%d; the write was acknowledged", i, nst, rp.MaxRec))
+		case ack != should:
+			fail("ack-mismatch", fmt.Sprintf("request %d (direct): acknowledged=%v, tags ok=%v, oversize event=%v, err=%v", i, ack, kok, nst < len(rq.Les), err))
+		}
+		w := wev{key: key, n: nst, before: count[key]}
+		expectEvent := kok && nst > 0
 		// the event is sent before Write returns (buffered channel): when one is due it is there at once; when none
 		// is due a short look makes sure there is none
 		d := 30 * time.Millisecond
@@ -717,15 +761,15 @@ func runPos(rp E2EReplay) (*e2eOut, error) {
 			}
 		}
 		if expectEvent != w.have {
-			fail("write-event-presence", fmt.Sprintf("request %d: %d records acknowledged=%v, event emitted=%v", i, len(rq.Les), ack, w.have))
+			fail("write-event-presence", fmt.Sprintf("request %d: %d records stored, acknowledged=%v, event emitted=%v", i, nst, ack, w.have))
 		}
 		w.observed = true
 		evs = append(evs, w)
-		if ack && kok {
+		if kok {
 			if _, ok := count[key]; !ok {
 				keys = append(keys, key)
 			}
-			count[key] += len(rq.Les)
+			count[key] += nst
 		}
 	}
 	// final chunk layout of every partition
@@ -806,6 +850,9 @@ func runPos(rp E2EReplay) (*e2eOut, error) {
 	out.nontriv = multi
 	if spans {
 		out.tags = append(out.tags, "pos:event-spans-chunks")
+	}
+	if oversized {
+		out.tags = append(out.tags, "pos:oversize-event")
 	}
 	out.tags = append(out.tags, fmt.Sprintf("pos:maxchunk=%d", rp.MaxChunk))
 	return out, nil
